@@ -21,9 +21,9 @@ func Main() {
 	if !r.Quick() {
 		// E-live under the race detector: real reactors, switches and tickers; the monitors judge, the race detector
 		// reports the interleavings that occurred (reports are keyed by the pair of innermost go-kardia frames)
-		dir, _ := os.MkdirTemp("", "verifrace")
+		dir, _ := os.MkdirTemp("", "verifrace") // under the run's scratch directory (TMPDIR), removed in Finish
 		defer os.RemoveAll(dir)
-		r.Cases("live", 12, core.Opts{Procs: 4, StallSec: 1500, Race: true, InconclusiveFatal: []string{"lib/p2p.Connect2Switches"}, Env: []string{"GORACE=halt_on_error=0 exitcode=0 log_path=" + dir + "/race"}}, func(c *core.Case) { netsim.LiveCase(c, "C03") })
+		r.Cases("live", 40, core.Opts{Procs: 4, StallSec: 1500, Race: true, InconclusiveFatal: []string{"lib/p2p.Connect2Switches"}, Env: []string{"GORACE=halt_on_error=0 exitcode=0 log_path=" + dir + "/race"}}, func(c *core.Case) { netsim.LiveCase(c, "C03") })
 		if !r.IsChild() {
 			keys, reports := netsim.RaceKeys(dir + "/race")
 			r.Extra("race_reports", reports)
